@@ -34,12 +34,13 @@ use fvm_shared::randomness::Randomness;
 use fvm_shared::sector::{
     PoStProof, RegisteredPoStProof, RegisteredSealProof, SectorSize, StoragePower,
 };
-use num_traits::ToPrimitive;
+use num_traits::{Signed, ToPrimitive};
 use serde_json::{Value, json};
 use std::collections::BTreeMap;
 use vm_api::VM;
 
 pub const SEAL: RegisteredSealProof = RegisteredSealProof::StackedDRG2KiBV1P1;
+pub const SEAL_NI: RegisteredSealProof = RegisteredSealProof::StackedDRG2KiBV1P2_Feat_NiPoRep;
 pub const POST: RegisteredPoStProof = RegisteredPoStProof::StackedDRGWindow2KiBV1P1;
 pub const SSIZE: SectorSize = SectorSize::_2KiB;
 
@@ -63,6 +64,10 @@ pub fn tiny_policy() -> Policy {
     p.expired_pre_commit_clean_up_delay = 6;
     p.valid_pre_commit_proof_type.insert(SEAL);
     p.valid_post_proof_type.insert(POST);
+    p.valid_prove_commit_ni_proof_type.insert(SEAL_NI);
+    p.min_aggregated_sectors_ni = 1;
+    p.max_aggregated_sectors_ni = 8;
+    p.max_prove_commit_ni_randomness_lookback = 40;
     p.minimum_consensus_power = StoragePower::from(2 * 2048);
     p.end_of_life_claim_drop_period = 2 * 24;
     p.minimum_verified_allocation_size = StoragePower::from(256);
@@ -84,15 +89,35 @@ fn pw(p: &PowerPair) -> Value {
 }
 
 pub struct World {
+    /// pledge of "the rest of the network" added to the power actor's total at genesis (attoFIL)
+    pub boost: TokenAmount,
     pub v: VVM,
     pub names: BTreeMap<String, Address>,
     pub miners: Vec<String>,
     burnt0: TokenAmount,
+    /// (miner, deadline) of accepted Window PoSts carrying an invalid proof (candidates for a dispute)
+    pub bad_posts: std::cell::RefCell<Vec<(String, u64)>>,
 }
 
 impl World {
     pub fn new(seed: u64, n_miners: usize) -> World {
+        World::new_boosted(seed, n_miners, false)
+    }
+
+    /// `boost`: start from a network whose pledge total already holds 1M FIL of other miners'
+    /// pledge (a configuration in which finding F1's negative-total abort cannot trigger)
+    pub fn new_boosted(seed: u64, n_miners: usize, boost: bool) -> World {
         let v = VVM::genesis(tiny_policy());
+        let boost_amt = if boost { TokenAmount::from_whole(1_000_000) } else { TokenAmount::from_atto(0) };
+        if boost {
+            let mut ps: PowerState = v.state(&STORAGE_POWER_ACTOR_ADDR).unwrap();
+            ps.total_pledge_collateral += &boost_amt;
+            let head = v.put_store(&ps);
+            let mut a = v.actor(&STORAGE_POWER_ACTOR_ADDR).unwrap();
+            a.state = head;
+            v.set_actor(&STORAGE_POWER_ACTOR_ADDR, a);
+            v.checkpoint();
+        }
         let accts = v.create_accounts(4, seed, &TokenAmount::from_whole(1_000_000));
         let bls = create_bls_accounts(&v, 2, seed, &TokenAmount::from_whole(1000));
         let mut names = BTreeMap::new();
@@ -112,7 +137,7 @@ impl World {
             miners.push(m.to_string());
         }
         let burnt0 = v.balance(&BURNT_FUNDS_ACTOR_ADDR);
-        World { v, names, miners, burnt0 }
+        World { boost: boost_amt, v, names, miners, burnt0, bad_posts: Default::default() }
     }
 
     pub fn mstate(&self, m: &str) -> MinerState {
@@ -275,7 +300,8 @@ impl World {
             "raw": ps.total_raw_byte_power.to_i64().unwrap(), "qa": ps.total_quality_adj_power.to_i64().unwrap(),
             "rawCommitted": ps.total_bytes_committed.to_i64().unwrap(), "qaCommitted": ps.total_qa_bytes_committed.to_i64().unwrap(),
             "aboveMin": ps.miner_above_min_power_count, "minerCount": ps.miner_count,
-            "pledge": big(&ps.total_pledge_collateral), "firstCron": ps.first_cron_epoch,
+            "pledge": big(&(&ps.total_pledge_collateral - &self.boost)), "boosted": self.boost.is_positive(), "pledgeReal": big(&ps.total_pledge_collateral),
+            "firstCron": ps.first_cron_epoch,
             "cronq": cronq.into_iter().map(|x| x.1).collect::<Vec<_>>(),
         });
         let miners: Vec<Value> = self.miners.iter().map(|m| self.project_miner(m)).collect();
@@ -446,9 +472,26 @@ impl World {
                                 require_notification_success: false,
                             })
                     }
+                    "CommitNI" => {
+                        let mid = maddr.id().unwrap();
+                        let sectors: Vec<fil_actor_miner::SectorNIActivationInfo> = call["sectors"].as_array().unwrap().iter().map(|x| {
+                            let n = x["n"].as_u64().unwrap();
+                            fil_actor_miner::SectorNIActivationInfo {
+                                sealing_number: n, sealer_id: mid, sealed_cid: make_sealed_cid(format!("ni: {n}").as_bytes()),
+                                sector_number: n, seal_rand_epoch: self.v.epoch() - 1, expiration: x["exp"].as_i64().unwrap(),
+                            }
+                        }).collect();
+                        self.v.run_p(&from, &maddr, &zero, MinerMethod::ProveCommitSectorsNI as u64,
+                            &fil_actor_miner::ProveCommitSectorsNIParams {
+                                sectors, aggregate_proof: RawBytes::new(vec![1, 2, 3]), seal_proof_type: SEAL_NI,
+                                aggregate_proof_type: fvm_shared::sector::RegisteredAggregateProof::SnarkPackV2,
+                                proving_deadline: call["dl"].as_u64().unwrap(),
+                                require_activation_success: call["requireAll"].as_bool().unwrap_or(false),
+                            })
+                    }
                     "PoSt" => {
                         let st = self.mstate(m);
-                        let di = st.recorded_deadline_info(&self.v.policy, self.v.epoch());
+                        let di = st.deadline_info(&self.v.policy, self.v.epoch());
                         let parts: Vec<PoStPartition> = call["parts"]
                             .as_array()
                             .unwrap()
@@ -498,10 +541,40 @@ impl World {
                     "Withdraw" => self.v.run_p(&from, &maddr, &zero, MinerMethod::WithdrawBalance as u64,
                         &WithdrawBalanceParams { amount_requested: TokenAmount::from_nano(call["nano"].as_i64().unwrap()) }),
                     "RepayDebt" => self.v.run(&from, &maddr, &zero, MinerMethod::RepayDebt as u64, None),
+                    "ReportFault" => {
+                        // the consensus-fault oracle answers what the driver decided
+                        let fe = self.v.epoch() - call["age"].as_i64().unwrap();
+                        *self.v.consensus_fault.borrow_mut() = if call["proven"].as_bool().unwrap_or(true) {
+                            Some(fvm_shared::consensus::ConsensusFault {
+                                target: self.names[call["target"].as_str().unwrap_or(m)],
+                                epoch: fe,
+                                fault_type: fvm_shared::consensus::ConsensusFaultType::DoubleForkMining,
+                            })
+                        } else {
+                            None
+                        };
+                        if call["failSend"].as_bool().unwrap_or(false) {
+                            self.v.clear_faults();
+                            self.v.add_fault(FaultRule { from_type: Some(fil_actors_runtime::runtime::builtins::Type::Miner),
+                                to: Some(self.names["rep"].id().unwrap()), times: 1, ..Default::default() });
+                        }
+                        let rew: fil_actor_reward::State = self.v.state(&REWARD_ACTOR_ADDR).unwrap();
+                        let this_epoch_reward = TokenAmount::from_atto(rew.this_epoch_reward_smoothed.estimate());
+                        ev["cfPenalty"] = big(&fil_actor_miner::consensus_fault_penalty(this_epoch_reward));
+                        let o = self.v.run_p(&self.names["rep"], &maddr, &zero, MinerMethod::ReportConsensusFault as u64,
+                            &fil_actor_miner::ReportConsensusFaultParams { header1: vec![1], header2: vec![2], header_extra: vec![] });
+                        self.v.clear_faults();
+                        o
+                    }
+                    "Dispute" => self.v.run_p(&self.names["rep"], &maddr, &zero, MinerMethod::DisputeWindowedPoSt as u64,
+                        &fil_actor_miner::DisputeWindowedPoStParams { deadline: call["dl"].as_u64().unwrap(), post_index: call["idx"].as_u64().unwrap() }),
                     _ => panic!("unknown call {a}"),
                 }
             }
         };
+        if a == "PoSt" && o.ok() && call["badProof"].as_bool().unwrap_or(false) {
+            self.bad_posts.borrow_mut().push((call["m"].as_str().unwrap().to_string(), call["dl"].as_u64().unwrap()));
+        }
         ev["ok"] = json!(o.ok());
         ev["class"] = json!(o.class());
         ev["code"] = json!(o.code.value());
@@ -542,7 +615,8 @@ fn random_call(rng: &mut Rng, w: &World, policy: &Policy) -> Value {
     let wdw = policy.wpost_challenge_window;
     let nd = policy.wpost_period_deadlines as i64;
     let pps = ms["pps"].as_i64().unwrap();
-    let cur = ((epoch - pps).max(0) / wdw).min(nd - 1);
+    let period = policy.wpost_proving_period;
+    let cur = (((epoch - pps) % period + period) % period) / wdw;
     let alloc: Vec<u64> = ms["alloc"].as_array().unwrap().iter().map(|x| x.as_u64().unwrap()).collect();
     let pre: Vec<u64> = ms["pre"].as_array().unwrap().iter().map(|x| x["n"].as_u64().unwrap()).collect();
     let who = if rng.chance(6) { "x" } else if rng.chance(30) { "owner" } else { "worker" };
@@ -561,6 +635,38 @@ fn random_call(rng: &mut Rng, w: &World, policy: &Policy) -> Value {
         }
         out
     };
+    // a PoSt opportunity: the current deadline has an un-posted partition with something to prove
+    {
+        let posted: Vec<u64> = ms["dls"].as_array().unwrap()[cur as usize]["posted"].as_array().unwrap().iter().map(|x| x.as_u64().unwrap()).collect();
+        let open: Vec<_> = parts.iter().filter(|p| p.0 == cur && !posted.contains(&p.1)
+            && p.2.iter().any(|s| !p.6.contains(s) && (!p.4.contains(s) || p.5.contains(s)))).collect();
+        if !open.is_empty() && epoch >= pps && rng.chance(70) {
+            let mut sel = vec![];
+            for p in &open {
+                if rng.chance(85) {
+                    let live: Vec<u64> = p.2.iter().filter(|s| !p.6.contains(s)).cloned().collect();
+                    let skipped = if rng.chance(20) { subset(rng, &live) } else { vec![] };
+                    sel.push(json!({"i": p.1, "skipped": skipped}));
+                }
+            }
+            if !sel.is_empty() {
+                return json!({"a": "PoSt", "m": m, "c": "worker", "dl": cur, "parts": sel, "badProof": rng.chance(10)});
+            }
+        }
+    }
+    if rng.chance(9) {
+        // non-interactive commit: short-lived sectors straight into a chosen deadline
+        let cnt = rng.range(1, 3);
+        let mut sectors = vec![];
+        for _ in 0..cnt {
+            let n = if rng.chance(88) {
+                (0..60u64).find(|x| !alloc.contains(x) && !sectors.iter().any(|s: &Value| s["n"] == json!(x))).unwrap_or(61)
+            } else { rng.range(0, 6) as u64 };
+            sectors.push(json!({"n": n, "exp": epoch + policy.min_sector_expiration + *rng.pick(&[0, 0, 1, 7, 24, 30, -1])}));
+        }
+        let d = if rng.chance(80) { (cur + 2 + rng.range(0, 1)) % nd } else { rng.range(0, nd - 1) };
+        return json!({"a": "CommitNI", "m": m, "c": who, "sectors": sectors, "dl": d, "requireAll": rng.chance(30)});
+    }
     let k = rng.below(100);
     if k < 12 {
         // pre-commit 1-3 new (or occasionally used) sector numbers
@@ -587,14 +693,16 @@ fn random_call(rng: &mut Rng, w: &World, policy: &Policy) -> Value {
         ns.dedup();
         return json!({"a": "ProveCommit", "m": m, "c": who, "ns": ns, "requireAll": rng.chance(30)});
     }
-    if k < 50 {
+    if (24..30).contains(&k) {
         // PoSt for the current deadline (or, rarely, another one)
         let d = if rng.chance(90) { cur } else { rng.range(0, nd - 1) };
         let ps: Vec<&(i64, u64, Vec<u64>, Vec<u64>, Vec<u64>, Vec<u64>, Vec<u64>)> = parts.iter().filter(|p| p.0 == d).collect();
         if !ps.is_empty() {
+            let posted: Vec<u64> = ms["dls"].as_array().unwrap()[d as usize]["posted"].as_array().unwrap().iter().map(|x| x.as_u64().unwrap()).collect();
             let mut sel = vec![];
             for p in &ps {
-                if rng.chance(80) {
+                let provable = p.2.iter().any(|s| !p.6.contains(s) && (!p.4.contains(s) || p.5.contains(s)));
+                if (rng.chance(85) && !posted.contains(&p.1) && provable) || rng.chance(4) {
                     let live: Vec<u64> = p.2.iter().filter(|s| !p.6.contains(s)).cloned().collect();
                     let skipped = if rng.chance(25) { subset(rng, &live) } else { vec![] };
                     sel.push(json!({"i": p.1, "skipped": skipped}));
@@ -605,28 +713,28 @@ fn random_call(rng: &mut Rng, w: &World, policy: &Policy) -> Value {
             }
         }
     }
-    if k < 60 && !parts.is_empty() {
+    if (50..56).contains(&k) && !parts.is_empty() {
         let p = rng.pick(&parts);
         let live: Vec<u64> = p.2.iter().filter(|s| !p.6.contains(s)).cloned().collect();
         if !live.is_empty() {
             return json!({"a": "DeclareFaults", "m": m, "c": who, "decls": [{"dl": p.0, "p": p.1, "s": subset(rng, &live)}]});
         }
     }
-    if k < 68 && !parts.is_empty() {
+    if (56..64).contains(&k) && !parts.is_empty() {
         let cands: Vec<_> = parts.iter().filter(|p| !p.4.is_empty()).collect();
         if !cands.is_empty() {
             let p = rng.pick(&cands);
             return json!({"a": "DeclareRecovered", "m": m, "c": who, "decls": [{"dl": p.0, "p": p.1, "s": subset(rng, &p.4)}]});
         }
     }
-    if k < 73 && !parts.is_empty() {
+    if (64..67).contains(&k) && !parts.is_empty() {
         let p = rng.pick(&parts);
         let live: Vec<u64> = p.2.iter().filter(|s| !p.6.contains(s)).cloned().collect();
         if !live.is_empty() {
             return json!({"a": "Terminate", "m": m, "c": who, "decls": [{"dl": p.0, "p": p.1, "s": subset(rng, &live)}]});
         }
     }
-    if k < 77 && !parts.is_empty() {
+    if (67..71).contains(&k) && !parts.is_empty() {
         let p = rng.pick(&parts);
         let live: Vec<u64> = p.2.iter().filter(|s| !p.6.contains(s)).cloned().collect();
         if !live.is_empty() {
@@ -636,7 +744,7 @@ fn random_call(rng: &mut Rng, w: &World, policy: &Policy) -> Value {
                           "exp": cur_exp + *rng.pick(&[0, 1, 24, 48, 1000, -1])}]});
         }
     }
-    if k < 80 && !parts.is_empty() {
+    if (71..73).contains(&k) && !parts.is_empty() {
         let p = rng.pick(&parts);
         return json!({"a": "Compact", "m": m, "c": who, "dl": p.0, "parts": [p.1]});
     }
@@ -653,20 +761,61 @@ fn random_call(rng: &mut Rng, w: &World, policy: &Policy) -> Value {
     if (88..89).contains(&k) {
         return json!({"a": "Fund", "m": m, "nano": rng.range(1, 1_000_000)});
     }
+    if (91..93).contains(&k) {
+        return json!({"a": "ReportFault", "m": m, "age": *rng.pick(&[1, 1, 2, 0, 5]), "proven": rng.chance(90),
+                      "failSend": rng.chance(30), "target": if rng.chance(92) { m.clone() } else { "m1".to_string() }});
+    }
+    if (93..95).contains(&k) {
+        // mostly aimed at a deadline for which an invalid proof was accepted optimistically
+        let cands: Vec<(String, u64)> = w.bad_posts.borrow().clone();
+        if !cands.is_empty() && rng.chance(80) {
+            let (bm, bd) = rng.pick(&cands).clone();
+            return json!({"a": "Dispute", "m": bm, "dl": bd, "idx": if rng.chance(85) { 0 } else { 1 }});
+        }
+        return json!({"a": "Dispute", "m": m, "dl": rng.range(0, nd - 1), "idx": rng.range(0, 1)});
+    }
     if (89..91).contains(&k) {
-        return json!({"a": "Fault", "site": *rng.pick(&["reward->miner", "cron->market", "miner->market", "miner->burn"])});
+        return json!({"a": "Fault", "site": *rng.pick(&["reward->miner", "cron->market", "miner->market"])});
     }
     // advance time: usually to just before / at / after a deadline boundary
-    let next_open = dl_open(pps, cur + 1, wdw);
-    let to_boundary = (next_open - epoch).max(1);
+    let into = ((epoch - pps) % wdw + wdw) % wdw;
+    let to_boundary = (wdw - into).max(1);
     let n = *rng.pick(&[1, 1, 2, to_boundary - 1, to_boundary, to_boundary + 1, wdw, 3]);
     json!({"a": "Tick", "n": n.max(1)})
+}
+
+/// a call of spec/MC_Sectors.tla (single miner, epochs relative to e0) in the driver's vocabulary
+fn from_model(c: &Value, e0: i64) -> Value {
+    let a = c["a"].as_str().unwrap();
+    let who = c["c"].as_str().unwrap_or("worker");
+    let decls = |with_exp: bool| -> Value {
+        json!(c["decls"].as_array().unwrap().iter().map(|d| {
+            let mut o = json!({"dl": d["d"], "p": d["p"], "s": d["s"]});
+            if with_exp { o["exp"] = json!(d["exp"].as_i64().unwrap() + e0); }
+            o
+        }).collect::<Vec<_>>())
+    };
+    match a {
+        "Tick" => json!({"a": "Tick", "n": c["n"]}),
+        "CommitNI" => {
+            let ns = c["ns"].as_array().unwrap();
+            let ex = c["exps"].as_array().unwrap();
+            json!({"a": "CommitNI", "m": "m1", "c": who, "dl": c["d"], "requireAll": c["requireAll"],
+                   "sectors": ns.iter().zip(ex.iter()).map(|(n, x)| json!({"n": n, "exp": x.as_i64().unwrap() + e0})).collect::<Vec<_>>()})
+        }
+        "PoSt" => json!({"a": "PoSt", "m": "m1", "c": who, "dl": c["d"], "badProof": !c["proofOK"].as_bool().unwrap_or(true),
+                         "parts": c["parts"].as_array().unwrap().iter().map(|p| json!({"i": p["i"], "skipped": p["skipped"]})).collect::<Vec<_>>()}),
+        "DeclareFaults" | "DeclareRecovered" | "Terminate" => json!({"a": a, "m": "m1", "c": who, "decls": decls(false)}),
+        "Extend" => json!({"a": "Extend", "m": "m1", "c": who, "decls": decls(true)}),
+        other => panic!("unknown model call {other}"),
+    }
 }
 
 pub fn header(policy: &Policy) -> Value {
     json!({"D": policy.wpost_period_deadlines, "W": policy.wpost_challenge_window, "P": policy.wpost_proving_period,
            "PartSize": 2, "FaultMaxAge": policy.fault_max_age, "FaultCutoff": policy.fault_declaration_cutoff,
-           "MinPower": policy.minimum_consensus_power.to_i64().unwrap(), "MinMiners": 4})
+           "MinPower": policy.minimum_consensus_power.to_i64().unwrap(), "MinMiners": 4,
+           "MinLife": policy.min_sector_expiration, "MaxLife": policy.max_sector_expiration_extension})
 }
 
 pub fn main(args: &[String]) {
@@ -685,13 +834,26 @@ pub fn main(args: &[String]) {
     if let Some(b) = arg(args, "--behaviours") {
         for (i, (_, beh)) in read_schedules(b, 1).iter().enumerate() {
             let nm = beh.first().and_then(|c| c["miners"].as_u64()).unwrap_or(1) as usize;
-            let w = World::new(seed + i as u64, nm);
+            let boost = beh.first().and_then(|c| c["boost"].as_bool()).unwrap_or(false);
+            let model = beh.first().map(|c| c["a"] != json!("Create")).unwrap_or(false);
+            let w = World::new_boosted(seed + i as u64, nm, boost || model);
+            // behaviours of MC_Sectors count epochs from a proving-period start of miner m1
+            let mut e0 = 0;
+            if model {
+                let pps = w.mstate("m1").proving_period_start;
+                let p = w.v.policy.wpost_proving_period;
+                while (w.v.epoch() - pps).rem_euclid(p) != 0 {
+                    w.v.tick();
+                }
+                e0 = w.v.epoch();
+            }
             begin(&mut t, &w);
             for call in beh {
                 if call["a"] == json!("Create") {
                     continue;
                 }
-                t.line(&w.step(call));
+                let call = if model { from_model(call, e0) } else { call.clone() };
+                t.line(&w.step(&call));
             }
             if let Some(s) = sched_out.as_mut() {
                 s.line(&json!({"scale": 1, "calls": beh}));
@@ -703,9 +865,10 @@ pub fn main(args: &[String]) {
     let mut rng = Rng::new(seed);
     for i in 0..n {
         let nm = if rng.chance(35) { 2 } else { 1 };
-        let w = World::new(seed.wrapping_mul(1000) + i, nm);
+        let boost = rng.chance(60);
+        let w = World::new_boosted(seed.wrapping_mul(1000) + i, nm, boost);
         begin(&mut t, &w);
-        let mut calls = vec![json!({"a": "Create", "miners": nm})];
+        let mut calls = vec![json!({"a": "Create", "miners": nm, "boost": boost})];
         for _ in 0..len {
             let call = random_call(&mut rng, &w, &policy);
             t.line(&w.step(&call));
